@@ -16,6 +16,12 @@ Three layers, core Lean only:
   identity (nested containers are references) and byte arrays shared between byte_slice
   views, run either as the code is (`Mode.impl`) or as the property demands (`Mode.spec`).
 
+* `BOp` / `stepB` — the builtins and methods that take a container, must leave it untouched
+  and hand back an independent container: `sorted(x)` and `sorted(x, f)` (the comparison
+  function as a call-numbered oracle that may raise at any call, `Impl.sortBy`), `reversed`,
+  `list()`, `set()`, `keys()`, `m.items()`, `l.filter`, `l.each`, `chunk`. They are one
+  constructor `Op.bi` of the machine and read the same in both modes.
+
 Abstractions (see checks/C16.json "trusted"): the capacity and backing-array identity of
 `List.items` are not modelled, because no operation of list.go hands out a sub-slice of it
 without copying (the correspondence check compares *every* live object after *every* step,
@@ -424,6 +430,44 @@ def mapIdx (cb : Cb) (items : List Val) : List Val :=
     | some v => v
     | none => .int ((items.length : Int) - 1))
 
+/-! `sorted(x, f)`: `sort.SliceStable` driven by a script comparison function.
+
+    The comparison is a call-numbered ORACLE (`CmpOracle`, defined below the namespace header
+    of this block): the outcome of call number `n` (0-based, counted over the whole sort) on
+    the pair `(a, b)` is `some true` (less), `some false` (not less) or `none` (the function
+    RAISES). An abstract relation is the oracle that ignores `n`; an oracle list / "fails at
+    step k" is the oracle that looks only at `n`. As in the Go code a raising call counts as
+    "not less", the error is remembered, and the sort carries on to the end. -/
+
+/-- one inner loop of Go's `insertionSort` on the reversed sorted prefix, threading the call
+    counter; returns the new reversed prefix, the counter and whether a call raised -/
+def insBy (f : Nat → Val → Val → Option Bool) (x : Val) : Nat → List Val → List Val × Nat × Bool
+  | n, [] => ([x], n, false)
+  | n, y :: ys =>
+    match f n x y with
+    | some true => let r := insBy f x (n + 1) ys; (y :: r.1, r.2.1, r.2.2)
+    | some false => (x :: y :: ys, n + 1, false)
+    | none => (x :: y :: ys, n + 1, true)
+
+def sortByLoop (f : Nat → Val → Val → Option Bool) : List Val → List Val → Nat → Bool → List Val × Bool
+  | rp, [], _, e => (rp.reverse, e)
+  | rp, x :: rest, n, e =>
+    let r := insBy f x n rp
+    sortByLoop f r.1 rest r.2.1 (e || r.2.2)
+
+/-- the arrangement `sort.SliceStable(items, less)` leaves behind (insertion sort: exact for
+    n ≤ 20, and at any length for consistent comparison functions) and whether a call raised.
+    When a call raised, the arrangement is the HALF-SORTED one the slice is left in. -/
+def sortBy (f : Nat → Val → Val → Option Bool) (xs : List Val) : List Val × Bool :=
+  sortByLoop f [] xs 0 false
+
+/-- `chunk`: consecutive pieces of `n ≥ 1` items (the last one may be shorter); `fuel` bounds
+    the number of pieces -/
+def chunksOf (n : Nat) : Nat → List Val → List (List Val)
+  | 0, _ => []
+  | _, [] => []
+  | f+1, x :: xs => (x :: xs).take n :: chunksOf n f ((x :: xs).drop n)
+
 /-! maps: unordered association lists with unique keys -/
 
 def mset (kvs : List (Str × Val)) (k : Str) (v : Val) : List (Str × Val) :=
@@ -569,6 +613,43 @@ inductive Mode where
   | impl | spec
   deriving DecidableEq, Repr
 
+/-- the comparison functions the scenarios hand to `sorted(x, f)` -/
+inductive CmpFn where
+  | lt        -- func(a, b) { return a < b }
+  | gt        -- func(a, b) { return a > b }
+  | le        -- func(a, b) { return a <= b }   (not a strict order)
+  | ge        -- func(a, b) { return a >= b }
+  | always    -- func(a, b) { return true }
+  | never     -- func(a, b) { return false }
+  deriving DecidableEq, Repr
+
+/-- a comparison oracle: outcome of call number `n` on `(a, b)`; `none` = the call raises -/
+abbrev CmpOracle := Nat → Val → Val → Option Bool
+
+/-- the predicates the scenarios hand to `list.filter` -/
+inductive Pred where
+  | ne        -- func(x) { return x != v }
+  | eq        -- func(x) { return x == v }
+  | all       -- func(x) { return true }
+  | nothing   -- func(x) { return false }
+  deriving DecidableEq, Repr
+
+/-- builtins and methods that take a container, must leave it untouched and hand back an
+    independent container (or nothing) -/
+inductive BOp where
+  | sortedBy (r : Nat) (f : CmpFn) (failAt : Option Nat)  -- sorted(x, f); call number `failAt` raises
+  | sorted (r : Nat)                 -- sorted(x)    x : list | map | set | byte_slice
+  | reversed (r : Nat)               -- reversed(x)  x : list | byte_slice
+  | toList (r : Nat)                 -- list(x)      x : list | map | set
+  | toSet (r : Nat)                  -- set(x)       x : list | map | set
+  | keysOf (r : Nat)                 -- keys(x)      x : list | map | set
+  | items (r : Nat)                  -- m.items()
+  | filter (r : Nat) (p : Pred) (v : Val)   -- l.filter(p)
+  | each (r : Nat)                   -- l.each(func(x) { x })
+  | eachAcc (r : Nat) (acc : Nat)    -- l.each(func(x) { acc.append(x) })
+  | chunk (r : Nat) (n : Val)        -- chunk(l, n)
+  deriving DecidableEq, Repr
+
 inductive Op where
   | lGet (r : Nat) (i : Val)
   | lSlice (r : Nat) (a b : Option Val)
@@ -625,6 +706,7 @@ inductive Op where
   | strGet (s : Val) (i : Val)
   | strSlice (s : Val) (a b : Option Val)
   | strLen (s : Val)
+  | bi (b : BOp)
   deriving DecidableEq, Repr
 
 def Heap.put (h : Heap) (r : Nat) (o : Obj) : Heap := { h with objs := h.objs.set r o }
@@ -687,6 +769,132 @@ def sortedKVs (kvs : List (Str × Val)) : List (Str × Val) :=
 def newList (h : Heap) (xs : List Val) : Heap × Res :=
   let (h', r) := h.alloc (.list xs)
   (h', .val (.ref r))
+
+/-! ### builtins that must leave their operand untouched -/
+
+def insByKey (v : Val) : List Val → List Val
+  | [] => [v]
+  | x :: xs => if keyLt v x then v :: x :: xs else x :: insByKey v xs
+
+/-- `Set.SortedItems`: the members ordered by hash key (type name, int value, string value) -/
+def sortedItems (xs : List Val) : List Val := xs.foldl (fun acc v => insByKey v acc) []
+
+def mapKeys (kvs : List (Str × Val)) : List Val := (sortedKVs kvs).map (fun p => Val.str p.1)
+
+/-- what `list(x)` / `set(x)` iterate over: list items, sorted map keys, sorted set members -/
+def iterItems (h : Heap) (r : Nat) : Option (List Val) :=
+  match h.get r with
+  | .list xs => some xs
+  | .map kvs => some (mapKeys kvs)
+  | .set xs => some (sortedItems xs)
+  | .bytes _ _ _ => none
+
+/-- what `sorted(x[, f])` sorts: `Value()` of a list, the keys of a map, the members of a
+    set, the bytes of a byte_slice as ints -/
+def sortItems (h : Heap) (r : Nat) : List Val :=
+  match h.get r with
+  | .list xs => xs
+  | .map kvs => mapKeys kvs
+  | .set xs => sortedItems xs
+  | .bytes a o l => (bytesContent h a o l).map (fun (b : Nat) => Val.int (b : Int))
+
+/-- one call of a script comparison function: `a < b` etc. through `object.Compare`
+    (a type error raises), or a constant -/
+def cmpFnOutcome (h : Heap) (f : CmpFn) (a b : Val) : Option Bool :=
+  match f with
+  | .always => some true
+  | .never => some false
+  | .lt => match cmp3 h (fuelOf h) a b with | .ok c => some (decide (c < 0)) | .err => none
+  | .gt => match cmp3 h (fuelOf h) a b with | .ok c => some (decide (c > 0)) | .err => none
+  | .le => match cmp3 h (fuelOf h) a b with | .ok c => some (decide (c ≤ 0)) | .err => none
+  | .ge => match cmp3 h (fuelOf h) a b with | .ok c => some (decide (c ≥ 0)) | .err => none
+
+/-- the oracle of a scenario: call number `failAt` raises, every other call compares -/
+def oracleOf (h : Heap) (f : CmpFn) (failAt : Option Nat) : CmpOracle :=
+  fun n a b => if failAt = some n then none else cmpFnOutcome h f a b
+
+def predOf (h : Heap) (p : Pred) (v : Val) : Val → Bool :=
+  match p with
+  | .ne => fun x => !heq h x v
+  | .eq => fun x => heq h x v
+  | .all => fun _ => true
+  | .nothing => fun _ => false
+
+/-- append several new objects at once -/
+def allocs (h : Heap) (os : List Obj) : Heap := { h with objs := h.objs ++ os }
+
+/-- references to `n` consecutive objects starting at `base` -/
+def refsFrom (base n : Nat) : List Val := (List.range n).map (fun i => Val.ref (base + i))
+
+/-- the builtins of the class, as the code performs them. They are the same in both readings
+    of the machine: the property demands exactly that the operand is only read and that the
+    result is a new object. -/
+def stepB (h : Heap) (b : BOp) : Heap × Res :=
+  match b with
+  | .sortedBy r f k =>
+    -- `resultItems := copy(items)`; `sort.SliceStable(resultItems, f)`; an error of `f` is
+    -- returned as a type error and the copy is dropped
+    match Impl.sortBy (oracleOf h f k) (sortItems h r) with
+    | (_, true) => (h, .err .type)
+    | (ys, false) => newList h ys
+  | .sorted r =>
+    match Impl.sort (hcmp h) (sortItems h r) with
+    | (_, .err) => (h, .err .type)
+    | (_, .panic) => (h, .err .panic)
+    | (ys, _) => newList h ys
+  | .reversed r =>
+    match h.get r with
+    | .list xs => newList h xs.reverse
+    | .bytes a o l =>
+      ({ objs := h.objs ++ [.bytes h.arrs.length 0 l], arrs := h.arrs ++ [(bytesContent h a o l).reverse] },
+        .val (.ref h.objs.length))
+    | _ => (h, .err .type)
+  | .toList r =>
+    match iterItems h r with
+    | some xs => newList h xs
+    | none => (h, .err .type)
+  | .toSet r =>
+    match iterItems h r with
+    | some xs =>
+      if xs.all (fun x => (hashKey x).isSome) then
+        (allocs h [.set (xs.foldl Impl.sadd [])], .val (.ref h.objs.length))
+      else (h, .err .type)
+    | none => (h, .err .type)
+  | .keysOf r =>
+    match h.get r with
+    | .list xs => newList h ((List.range xs.length).map (fun (i : Nat) => Val.int (i : Int)))
+    | .map kvs => newList h (mapKeys kvs)
+    | .set xs => newList h (sortedItems xs)
+    | .bytes _ _ _ => (h, .err .type)
+  | .items r =>
+    match h.get r with
+    | .map kvs =>
+      let ps := sortedKVs kvs
+      (allocs h (ps.map (fun p => Obj.list [.str p.1, p.2]) ++ [.list (refsFrom h.objs.length ps.length)]),
+        .val (.ref (h.objs.length + ps.length)))
+    | _ => (h, .err .type)
+  | .filter r p v =>
+    match h.get r with
+    | .list xs => newList h (xs.filter (predOf h p v))
+    | _ => (h, .err .type)
+  | .each r =>
+    match h.get r with
+    | .list _ => (h, .val .nil)
+    | _ => (h, .err .type)
+  | .eachAcc r acc =>
+    -- `for _, value := range ls.items`: the items as they were when the loop started
+    match h.get r, h.get acc with
+    | .list xs, .list as => (h.put acc (.list (as ++ xs)), .val .nil)
+    | _, _ => (h, .err .type)
+  | .chunk r n =>
+    match h.get r, n with
+    | .list xs, .int k =>
+      if k ≤ 0 then (h, .err .value)
+      else
+        let cs := Impl.chunksOf k.toNat xs.length xs
+        (allocs h (cs.map Obj.list ++ [.list (refsFrom h.objs.length cs.length)]),
+          .val (.ref (h.objs.length + cs.length)))
+    | _, _ => (h, .err .type)
 
 /-- one operation on the heap, as the code performs it (`.impl`) or as the reference
     containers do (`.spec`). Target handles of the wrong kind give a type error. -/
@@ -1015,6 +1223,7 @@ def step (m : Mode) (h : Heap) (op : Op) : Heap × Res :=
     match s with
     | .str bs => (h, .val (.int (runes bs).length))
     | _ => (h, .err .type)
+  | .bi b => stepB h b
 
 /-- run a whole operation sequence, collecting the results -/
 def run (m : Mode) : Heap → List Op → Heap × List Res
@@ -1040,6 +1249,7 @@ def readOnly : Op → Bool
   | .sContains .. | .sGet .. | .sLen .. => true
   | .bGet .. | .bLen .. => true
   | .strGet .. | .strSlice .. | .strLen .. => true
+  | .bi (.each _) => true
   | _ => false
 
 /-- read-only operations that build a NEW container from their operand -/
@@ -1048,6 +1258,9 @@ def producesNew : Op → Bool
   | .mCopy .. | .mKeys .. | .mValues .. => true
   | .sUnion .. | .sInter .. => true
   | .bSlice .. | .bClone .. => true
+  | .bi (.each _) => false
+  | .bi (.eachAcc _ _) => false
+  | .bi _ => true
   | _ => false
 
 /-- the object an operation may modify -/
@@ -1058,6 +1271,7 @@ def target : Op → Option Nat
   | .mSet r .. | .mPop r .. | .mDel r .. | .mUpdate r .. | .mSetDefault r .. | .mClear r | .mAddAssign r .. => some r
   | .sAdd r .. | .sRemove r .. | .sDel r .. | .sClear r => some r
   | .bSet r .. => some r
+  | .bi (.eachAcc _ acc) => some acc
   | _ => none
 
 end Risor.C16
